@@ -516,6 +516,58 @@ def corr_flags(ctx, chk, broken):
     return out, cov
 
 
+def corr_c08(ctx, chk, broken):
+    """C08: Run vectors against model and reference, plus real-vs-real: a device callback raises an interrupt at the k-th port access,
+    once under CPU.Run and once under CPU.Step with the stop rule applied externally"""
+    base = corr_stream([('run', 1500, 30000, [])], want_spec=True,
+                       rule='one vector = 1-3 consecutive CPU.Run calls of the real code on a generated terminating register-only program ending in HALT, '
+                            'breakpoint set in {nil, empty, start PC, HALT address, inside an instruction, random subsets of instruction starts}; '
+                            'compared with the translated Run loop (Gen.Run_body) and with a hand-written Step-until-stop reference')
+    out, cov = base(ctx, chk, broken)
+    n = 120 if ctx.tier == 'thorough' else 12
+    vectors = chk.gen_vectors('runirq', ['-seed', str(ctx.seed), '-n', str(n)])
+    res = {l.split(' ', 1)[0]: l.split(' ', 1)[1] for l in chk.run_go(vectors) if ' ' in l}
+    byid = {l.split(' ', 1)[0]: l for l in vectors.splitlines() if l.strip()}
+    pairs = 0
+    codes = {}
+    for k, v in res.items():
+        if not k.endswith('-runirq'):
+            continue
+        pairs += 1
+        o = res.get(k[:-6] + 'stepirq')
+        codes[v.rsplit(' RUN ', 1)[-1]] = codes.get(v.rsplit(' RUN ', 1)[-1], 0) + 1
+        if o != v:
+            out.append({'stream': 'run-vs-step', 'id': k, 'vector': byid.get(k, '') + '\n' + byid.get(k[:-6] + 'stepirq', ''),
+                        'real': 'CPU.Run: ' + v[:1500], 'other': 'CPU.Step + external stop rule: ' + str(o)[:1500]})
+    cov['evaluations'] = cov.get('evaluations', 0) + 2 * pairs
+    cov['correspondence']['run_vs_step_pairs'] = pairs
+    cov['correspondence']['run_vs_step_results'] = codes
+    cov['rule'] += (' | callbacks: programs with port traffic (OTIR/OTDR/INIR, handlers at 0038h/0066h/0080h) run once by CPU.Run and once by CPU.Step with the stop rule applied externally, '
+                    'while the DEVICE CALLBACK raises NMI / a maskable request at the k-th port access, k over all port accesses (real vs real; breakpoints on handler addresses in 30%)')
+    return out, cov
+
+
+def corr_c12(ctx, chk, broken):
+    base = corr_stream([('malformed', 3000, 60000, []), ('slots', 1, 8, [])], want_spec=False, go_panic_is_violation=True,
+                       rule='one vector = 1-6 Steps of the real code from an arbitrary state (any IM, any request type/data, missing IO device / handlers) '
+                            'plus every opcode slot; a panic of the real code is a violation whatever the model says')
+    out, cov = base(ctx, chk, broken)
+    nm, per = (30000, 6) if ctx.tier == 'thorough' else (3000, 2)
+    vectors = chk.gen_vectors('malformed', ['-seed', str(ctx.seed + 11), '-n', str(nm)]) + chk.gen_vectors('slots', ['-seed', str(ctx.seed + 11), '-per', str(per)])
+    vectors = re.sub(r'(?m)K step$', 'K short', vectors)
+    byid = {l.split(' ', 1)[0]: l for l in vectors.splitlines() if l.strip()}
+    n = 0
+    for l in chk.run_go(vectors):
+        t = l.split(' ')
+        n += 1
+        if len(t) < 2 or t[1] != 'ok':
+            out.append({'stream': 'short-memory', 'id': t[0], 'vector': byid.get(t[0], ''), 'real': l[:1500], 'other': 'Step must return normally on short DumbMemory / DumbIO / MapMemory'})
+    cov['evaluations'] = cov.get('evaluations', 0) + n
+    cov['correspondence']['short_memory_vectors'] = n
+    cov['rule'] += ' | short memories: the same streams on the bundled DumbMemory (lengths 0..65536, pointers placed at the slice end), DumbIO (0..256) and MapMemory: any panic is a violation'
+    return out, cov
+
+
 PROPS = {
     'C01': {
         'targets': ['Z80.Props.C01'],
@@ -568,22 +620,17 @@ PROPS = {
     'C08': {
         'targets': ['Z80.Props.C08'],
         'count': ['Z80/Proofs/RunLoop.lean', 'Z80/Props/C08.lean'],
-        'correspond': corr_stream([('run', 1500, 30000, [])], want_spec=True,
-                                  rule='one vector = 1-3 consecutive CPU.Run calls of the real code on a generated terminating register-only program ending in HALT, '
-                                       'breakpoint set in {nil, empty, start PC, HALT address, inside an instruction, random subsets of instruction starts}; '
-                                       'compared with the translated Run loop (Gen.Run_body) and with a hand-written Step-until-stop reference'),
+        'correspond': corr_c08,
         'assumptions': ['Run is translated by a dedicated go2lean routine (loop body, statements before the loop, value after the loop); the loop itself is `runLoop` with fuel',
                         'never cancelled in this property (cancellation: C13)',
-                        'partial: interrupt requests raised from memory/port callbacks during Run are not expressible in the model (callbacks return bytes only); Step honours any pending request (C06)'],
+                        'partial: interrupt requests raised from memory/port callbacks during Run are not expressible in the model (callbacks return bytes only); they are covered by the real-vs-real run-vs-step stream (device callback raises the request at every port access in turn); Step honours any pending request (C06)'],
         'explanation': 'Run = Step repeated until the first Step after which PC is a breakpoint (ErrBreakPoint) or HALT is set (nil); never earlier, at least one Step, HALT discarded on entry, re-Run of a halted CPU is idempotent',
     },
     'C12': {
         'targets': ['Z80.Props.C12'],
         'count': ALL_OBL + ['Z80/Proofs/Frame.lean', 'Z80/Proofs/Interrupt.lean', 'Z80/Props/C12.lean'],
-        'correspond': corr_stream([('malformed', 3000, 60000, []), ('slots', 1, 8, [])], want_spec=False, go_panic_is_violation=True,
-                                  rule='one vector = 1-6 Steps of the real code from an arbitrary state (any IM, any request type/data, missing IO device / handlers) '
-                                       'plus every opcode slot; a panic of the real code is a violation whatever the model says'),
-        'assumptions': ['user Memory/IO are total functions (the bundled short slices: C15)',
+        'correspond': corr_c12,
+        'assumptions': ['user Memory/IO are total functions in the model; the bundled short DumbMemory / DumbIO / MapMemory are exercised on the real code (short-memory stream) and modelled in C15',
                         'partial: mode-0 requests with supplied bytes run every decode arm over the overlay memory; that composition is exercised by the malformed stream, not proved (the overlay accessors themselves are proved total)'],
         'explanation': 'Gen.Step never reaches a panic for every state with user memory and every request outside mode-0-with-data; overlay accessors total for every data length/start/address; unsupported opcodes consumed',
     },
